@@ -1,0 +1,26 @@
+//go:build verif
+
+package container
+
+// Machine-checked contracts (govc, see /verif/DESIGN.md). Comment-only file.
+
+// ---- C35: the approve* helpers co-sign the main transaction of a notary request; they
+// do not check alphabet membership themselves, so they demand it from their callers
+// (isAlpha() is declared in pkg/innerring/verif_contracts.go and established only by
+// IsAlphabet()/AlphabetIndex() answers).
+
+//@ func (*Processor).approvePutContainer
+//@   property C35
+//@   requires [caller_checked_alphabet_membership] isAlpha()
+//@ func (*Processor).approveDeleteContainer
+//@   property C35
+//@   requires [caller_checked_alphabet_membership] isAlpha()
+//@ func (*Processor).approveSetAttributeRequest
+//@   property C35
+//@   requires [caller_checked_alphabet_membership] isAlpha()
+//@ func (*Processor).approveRemoveAttributeRequest
+//@   property C35
+//@   requires [caller_checked_alphabet_membership] isAlpha()
+//@ func (*Processor).approveSetEACL
+//@   property C35
+//@   requires [caller_checked_alphabet_membership] isAlpha()
